@@ -984,6 +984,72 @@ func (StoreCorruptEngine) Run(prop string, ci any) *core.Outcome {
 			}
 		}
 	}
+	// nested write torn one level down: a byte of an INNER payload rots and only the OUTER envelope checksum is
+	// recomputed (each nesting level must detect corruption on its own)
+	if c.Evidence {
+		inner := store.EncodeDocument(orig.files)
+		evb := store.EncodeEvidence(orig.ev)
+		wrap := func(in2, ev2 []byte) []byte {
+			return store.Envelope("gmrtd-verifiable-doc", 1, store.Map(store.KV{K: "document", V: store.Bytes(in2)}, store.KV{K: "chipAuthEvidence", V: store.Bytes(ev2)}))
+		}
+		for rep := 0; rep < 300; rep++ {
+			in2, ev2 := inner, evb
+			which := "document"
+			if rep%2 == 1 {
+				which = "evidence"
+				ev2 = bytes.Clone(evb)
+				pos := len(ev2) - 1 - rng.Intn(max(1, len(ev2)-70)) // inside the payload byte string (it comes last)
+				ev2[pos] ^= byte(1 << uint(rng.Intn(8)))
+			} else {
+				in2 = bytes.Clone(inner)
+				pos := len(in2) - 1 - rng.Intn(max(1, len(in2)-60))
+				in2[pos] ^= byte(1 << uint(rng.Intn(8)))
+			}
+			check("inner_rot_outer_fixed_"+which, wrap(in2, ev2), rep)
+		}
+		// the evidence bundle is also a stored blob of its own (NewChipAuthEvidenceFromCbor is a public entry point)
+		if eb, err := d.Session.ChipAuthEvidenceToCbor(); err == nil {
+			want := normEv(orig.ev)
+			for pos := 0; pos < len(eb); pos++ {
+				for _, v := range []byte{eb[pos] ^ 0x01, eb[pos] ^ 0x80, 0x00, 0xFF} {
+					if v == eb[pos] {
+						continue
+					}
+					b := bytes.Clone(eb)
+					b[pos] = v
+					out.Fault("evidence_blob_bitrot")
+					var got *document.ChipAuthEvidenceBundle
+					var e error
+					var pan any
+					func() {
+						defer func() { pan = recover() }()
+						got, e = document.NewChipAuthEvidenceFromCbor(b)
+					}()
+					if pan != nil {
+						out.Violate("C12", "panic-in-import", "evidence-blob", "NewChipAuthEvidenceFromCbor panicked: %v", pan)
+						continue
+					}
+					if e != nil || got == nil {
+						continue
+					}
+					im := &imported{}
+					if got.PaceCam != nil {
+						p := got.PaceCam
+						im.ev.PaceCam = &store.PaceCam{PaceOid: []int(p.PaceOid), ParameterId: p.ParameterId, Nonce: p.Nonce, TermMapPri: p.TermMapPri, TermMapPub: p.TermMapPub, ChipMapPub: p.ChipMapPub, TermKaPri: p.TermKaPri, TermKaPub: p.TermKaPub, ChipKaPub: p.ChipKaPub, EcadIC: p.EcadIC}
+					}
+					if got.ChipAuth != nil {
+						im.ev.CA = &store.CA{TermPri: got.ChipAuth.TermPri, TermPubKey: got.ChipAuth.TermPubKey, SmRapdu: got.ChipAuth.SmRapdu, SmSsc: got.ChipAuth.SmSsc}
+					}
+					if got.ActiveAuth != nil {
+						im.ev.AA = &store.AA{Algorithm: []int(got.ActiveAuth.Algorithm), Nonce: got.ActiveAuth.Nonce, Signature: got.ActiveAuth.Signature}
+					}
+					if !reflect.DeepEqual(normEv(im.ev), want) {
+						out.Violate("C15", "corrupt-blob-imports-differently", "evidence-blob", "evidence blob (%d bytes) with byte %d changed imports without error to different evidence", len(eb), pos)
+					}
+				}
+			}
+		}
+	}
 	log.Add("done", []byte(fmt.Sprint(len(out.Violations))))
 	out.Fingerprint = log.Fingerprint()
 	nf := len(orig.files)
